@@ -45,7 +45,8 @@ KINDS = ['gen', 'coro', 'agen']
 PKINDS = ['gen', 'coro', 'agen', 'tgen']
 COQ_KIND = {'gen': 'KGen', 'coro': 'KCoro', 'agen': 'KAsync', 'tgen': 'KGen'}
 F_TCORO = 'C03-types-coroutine-not-awaitable'      # fixed in /repo by f61df74: no longer a classifier target
-THROWN = [1, 2, 3, 4, 7]
+THROWN = [1, 2, 3, 4, 7, 9, 10, 11, 12]      # 9 KeyboardInterrupt, 10 SystemExit, 11 asyncio.CancelledError, 12 a user BaseException
+BASE_ONLY = [9, 10, 11, 12]                    # BaseException subclasses that are not Exception
 GE = 3
 
 
@@ -83,7 +84,7 @@ def rand_action(rnd, n, column):
 
 def rand_table(rnd, maxn=5):
     n = rnd.randint(1, maxn)
-    return [[rand_action(rnd, n, c) for c in range(6)] for _ in range(n)]
+    return [[rand_action(rnd, n, c) for c in range(len(THROWN) + 1)] for _ in range(n)]
 
 
 def rand_op(rnd, kind):
@@ -93,7 +94,7 @@ def rand_op(rnd, kind):
     if x < 0.60:
         return ['s', rnd.randint(1, 3)]
     if x < 0.85:
-        return ['t', rnd.choice([1, 2, 3] if kind == 'coro' else THROWN)]
+        return ['t', rnd.choice([1, 2, 3, 9, 10, 11, 12] if kind == 'coro' else THROWN)]
     return ['c']
 
 
@@ -105,7 +106,7 @@ def rand_ops(rnd, kind, maxlen=8):
     return ops
 
 
-EXH_ALPHABET = [['n'], ['s', 2], ['t', 1], ['t', 3], ['c']]
+EXH_ALPHABET = [['n'], ['s', 2], ['t', 1], ['t', 3], ['t', 11], ['c']]
 
 
 def exhaustive_ops(maxlen):
@@ -124,7 +125,7 @@ def gen_protocol(tier, rnd):
         for _ in range(n_rand if kind != 'tgen' else n_rand // 5):
             triples.append((kind, rand_table(rnd), rand_ops(rnd, kind)))
     # exhaustive short op sequences over a few tables
-    n_tab, maxlen = (4, 3) if tier == 'quick' else (24, 4)
+    n_tab, maxlen = (4, 3) if tier == 'quick' else (16, 4)
     for kind in PKINDS:
         for _ in range(n_tab if kind != 'tgen' else max(1, n_tab // 4)):
             t = rand_table(rnd, 3)
@@ -158,7 +159,7 @@ def flat(o):
 
 
 def table_honours_close(table):
-    return all(row[3][0] != 'Y' for row in table)
+    return all(len(row) <= 3 or row[3][0] != 'Y' for row in table)
 
 
 def coro_hyp(table, ops):
@@ -558,7 +559,18 @@ CANON = [
     ('agen', [[['Y', 1, False, 1]] + [['RR']] * 5, [['R', 0, False], ['Y', 5, False, 1]] + [['RR']] * 4], [['n'], ['t', 1]]),  # athrow
     ('agen', [[['Y', 1, False, 1]] + [['RR']] * 5, [['R', 0, False], ['RR'], ['RR'], ['Y', 2, False, 1], ['RR'], ['RR']]], [['n'], ['c']]),  # aclose
 ]
-CANON_AWAIT = [('tgen', [[['Y', 1, False, 1]] + [['RR']] * 5, [['R', 7, True]] + [['RR']] * 5], [['n'], ['s', 2]])]
+CANON += [   # a body that catches a thrown non-Exception BaseException and carries on (seed class C03-g)
+    ('gen', [[['Y', 1, False, 1]], [['R', 0, False], ['RR'], ['RR'], ['RR'], ['RR'], ['RR'], ['Y', 5, False, 1], ['Y', 6, False, 1], ['Y', 7, False, 1], ['Y', 8, False, 1]]],
+     [['n'], ['t', 9], ['t', 10], ['t', 11], ['t', 12], ['n']]),
+    ('agen', [[['Y', 1, False, 1]], [['R', 0, False], ['RR'], ['RR'], ['RR'], ['RR'], ['RR'], ['Y', 5, False, 1], ['Y', 6, False, 1], ['Y', 7, False, 1], ['Y', 8, False, 1]]],
+     [['n'], ['t', 11], ['t', 12], ['n']]),
+    ('tgen', [[['Y', 1, False, 1]], [['R', 0, False], ['RR'], ['RR'], ['RR'], ['RR'], ['RR'], ['RR'], ['RR'], ['R', 4, False], ['RR']]],
+     [['n'], ['t', 11]]),
+]
+CANON_AWAIT = [('tgen', [[['Y', 1, False, 1]] + [['RR']] * 5, [['R', 7, True]] + [['RR']] * 5], [['n'], ['s', 2]]),
+               # task.cancel() on a task awaiting a @types.coroutine function that swallows CancelledError
+               ('tgen', [[['Y', 1, False, 1]], [['R', 0, False], ['RR'], ['RR'], ['RR'], ['RR'], ['RR'], ['RR'], ['RR'], ['R', 4, False], ['RR']]],
+                [['n'], ['t', 11]])]
 CANON_NEST = [dict(layers=[['wrap', 0], ['wrap', 1]], inner=['ret', 7], kind='func'),
               dict(layers=[['with', 2], ['wrap', 0]], inner=['ret', 7], kind='func'),
               dict(layers=[['with', 0], ['wrap', 2]], inner=['ret', 7], kind='gen')]
@@ -887,10 +899,10 @@ def run(tier, seed):
              'when two different profiler instances are involved; kern scenarios when they contain a timer tick and another step; every descriptor term, registration case and function family (>= 2 function objects sharing a code object) is counted '
              '(each walks >= 7 access paths / argument lists)',
         exhaustive=True,
-        exhaustive_scope='op sequences of length <= %d over {next, send 2, throw ValueError, throw GeneratorExit, close} for %d random tables '
+        exhaustive_scope='op sequences of length <= %d over {next, send 2, throw ValueError, throw GeneratorExit, throw CancelledError, close} for %d random tables '
                    '(<= 3 states) per kind; all nestings of depth <= %d over {decorate, with} x 4 profiler instances; '
                    'all registration configurations (sources x twins x again x via x enabled); all 256 callable-instance configurations; %s function-family configurations'
-                   % (exh[0], 4 if tier == 'quick' else 24, exh[1], 'all 960' if tier != 'quick' else '320 (n = 3) of 960'),
+                   % (exh[0], 4 if tier == 'quick' else 16, exh[1], 'all 960' if tier != 'quick' else '320 (n = 3) of 960'),
         streams=dict(protocol_triples=len(recs), protocol_runs=3 * len(recs), await_runs=3 * len(arecs), kern=len(kcases),
                      nest=len(extra['nest']), desc=len(extra['desc']), meta=len(extra['meta']), reg=len(extra['reg']), family=len(extra['family']), inst=len(extra['inst'])),
         kern_modes=_hist(c['mode'] for c in kcases), kern_step_kinds=_hist(st[0] for c in kcases for st in c['steps']),
